@@ -22,6 +22,22 @@ REALISTIC = ["http://tracker.example.net", "udp://open.tracker.org:6969/announce
              "http://seed.example/dir/", "http://r", "wss://tracker.example/tr"]
 
 
+# names under which the metafile itself is stored, and what may lie beside it
+PATH_NAMES = ["m", "m.torrent", "m.TORRENT", "m.tor", "sub/m", "m.torrent.bak",
+              ".torrent", "m.", "m 1", "d.torrent/m"]
+def neighbours(d, fname):
+    """Other metafiles lying around the given one (all inside d)."""
+    stem = os.path.splitext(fname)[0]
+    out = [fname + ".torrent", fname + ".TORRENT", stem + ".torrent", stem,
+           os.path.join(os.path.dirname(fname), "o.torrent"),
+           os.path.basename(fname)]
+    return [os.path.join(d, x) for x in out if x and x != fname]
+
+
+PATH_ROUTES = ["lib", "lib-path", "lib-rel", "cli", "cli-rel", "cli-m", "ns",
+               "ns-path"]
+
+
 def strings(tier):
     toks = TOKENS[:12] if tier == "quick" else TOKENS
     out = []
@@ -139,6 +155,10 @@ class MagnetCheck:
             "version requests: automatic for all; 1, 2, 3 for hybrids; the URI "
             "printed by `create --magnet` is judged as an automatic request",
             "a few whole realistic URLs so that ordinary URL endings occur",
+            "path group: the metafile stored under names with and without "
+            "the .torrent suffix, with other metafiles beside it under the "
+            "derived names, through library (str/Path/relative), CLI (both "
+            "sub-command spellings) and the Namespace handler",
             "tr = flattened announce-list when present, else announce; a "
             "string url-list is one URL",
         ]
@@ -157,6 +177,7 @@ class MagnetCheck:
                     gs.append({"kind": "ref", "version": version, "ann": ann,
                                "url": url, "seed": seed, "tier": tier})
         gs.append({"kind": "own", "seed": seed, "tier": tier})
+        gs.append({"kind": "paths", "seed": seed, "tier": tier})
         return gs
 
     def run_case(self, raw, version_req, route, work):
@@ -182,6 +203,8 @@ class MagnetCheck:
         work = world.fresh_dir()
         if g["kind"] == "own":
             return self.run_own(g, res, work)
+        if g["kind"] == "paths":
+            return self.run_paths(g, res, work)
         version = g["version"]
         reqs = [0] if version != 3 else [0, 1, 2, 3]
         for s in strings(g["tier"]):
@@ -216,6 +239,79 @@ class MagnetCheck:
                                     f"ann={g['ann']}|url={g['url']}", case, d)
             res.sample({"version": version, "ann": g["ann"], "url": g["url"],
                         "string": s})
+        return res
+
+    def run_paths(self, g, res, work, only=None):
+        """The metafile's own path spelling and its neighbours: the URI is
+        that of the file at the path given, whatever lies next to it."""
+        import pathlib
+        from argparse import Namespace
+        seed = g["seed"]
+        for version in (1, 2, 3):
+            raw = build(version, "given", "g", "list2", "list2", "plain",
+                        seed, False)
+            for nv in (1, 2, 3):
+                if nv == version and version != 1:
+                    continue
+                other = build(nv, "neighbour", "n", "announce", "list1",
+                              "plain", seed + 1, True)
+                for fname in PATH_NAMES:
+                    for route in PATH_ROUTES:
+                        case = {"kind": "paths", "version": version,
+                                "nv": nv, "fname": fname, "route": route,
+                                "seed": seed}
+                        if only is not None and only != case:
+                            continue
+                        d = world.fresh_dir()
+                        path = os.path.join(d, fname)
+                        os.makedirs(os.path.dirname(path), exist_ok=True)
+                        with open(path, "wb") as f:
+                            f.write(raw)
+                        for q in neighbours(d, fname):
+                            if not os.path.lexists(q):
+                                with open(q, "wb") as f:
+                                    f.write(other)
+                        reqs = [0] if version != 3 else [0, 1, 2, 3]
+                        for vr in reqs:
+                            cwd = os.getcwd()
+                            try:
+                                arg = path
+                                if route.endswith("-rel"):
+                                    os.chdir(d)
+                                    arg = fname
+                                if route.startswith("lib-path"):
+                                    arg = pathlib.Path(arg)
+                                if route.startswith("lib"):
+                                    with tf.quiet():
+                                        uri = tf.commands.magnet(
+                                            arg, version=vr)
+                                elif route.startswith("ns"):
+                                    with tf.quiet():
+                                        uri = tf.commands.get_magnet(
+                                            Namespace(metafile=arg,
+                                                      meta_version=str(vr)))
+                                else:
+                                    argv = ["m" if route.startswith("cli-m")
+                                            else "magnet", arg]
+                                    if vr:
+                                        argv += ["--meta-version", str(vr)]
+                                    uri = tf.execute(argv)
+                                probs = judge(uri, raw, vr)
+                            except Exception as e:  # noqa
+                                probs = [("magnet-raised:" +
+                                          type(e).__name__, str(e)[:100])]
+                            finally:
+                                os.chdir(cwd)
+                            res.transitions += 1
+                            res.evals += 1
+                            res.validated += 1
+                            res.outcomes["ok" if not probs else
+                                         probs[0][0]] += 1
+                            for p, dd in probs:
+                                res.violation(
+                                    f"C11|{route}|{p}|v{version}|path",
+                                    dict(case, req=vr), dd)
+                        res.states += 1
         return res
 
     def run_own(self, g, res, work):
@@ -296,6 +392,12 @@ class MagnetCheck:
 
     def replay(self, case):
         work = world.fresh_dir()
+        if case["kind"] == "paths":
+            res = core.Result()
+            only = {k: v for k, v in case.items() if k != "req"}
+            self.run_paths({"seed": case["seed"]}, res, work, only=only)
+            return [{"sig": v["sig"], "detail": v["detail"]}
+                    for v in res.violations if v["case"]["req"] == case["req"]]
         if case["kind"] == "ref":
             raw = build(case["version"], case["s"], case["s"], case["ann"],
                         case["url"], "plain" if case["extra"] == "small"
